@@ -47,6 +47,10 @@ CHECKS = {
          "Comparison (generic and bounded, every admissible bound), Mux/Map/Slice/Partition/Decoder, bitslice and uints gadgets are enumerated exhaustively over the 47-element field (test engine, R1CS, SCS) and sampled boundary-biased on curve fields against integer oracles written from the doc comments (including the bounded comparator's documented zones); out-of-domain selectors must be unsatisfiable where promised; every gadget hint is rewritten (flip, zero, rotate, alias, two-hot, ...) and no wrong public output may become satisfiable.",
          "uints has no per-method documentation: plain w-bit arithmetic on in-range inputs is assumed; a full CSP search over F47 is replaced by enumerating every value / one-hot / two-hot / step vector of the gadget hints.",
          "DESIGN.md §3 C14"),
+ "C09": ("round-trip + differential property-based testing (rapid)",
+         "For generated systems (all instruction kinds: generic / specialised gates, hints, lookup tables, range checks, emulated multiplication, commitments, logs), Groth16/PLONK keys (compressed, raw, raw+unsafe, memory dump), proofs and witnesses: reported byte count == bytes written == bytes consumed (with sentinel bytes after the encoding), re-encoding is byte-identical, the decoded system has the same levels / counts / commitment info and solves every witness to the same verdict and solution, and the full cross matrix {original, decoded} cs x pk x vk proves and verifies (a decoded vk still rejects a wrong public input).",
+         "Small-field systems have no exported empty-system factory and are not round-tripped; GKR metadata is covered only through C19's circuits, not here.",
+         "DESIGN.md §3 C09"),
 }
 
 PENDING = {}
